@@ -786,12 +786,18 @@ fn walk_map<const N: usize>(table: &Table, env: &Env, rng: &mut StdRng, steps: u
         let st: Vec<Value> = cage.m.iter().map(|(k, v)| json!([k.class(), k.ver, v.content])).collect();
         let key = (N, Value::Array(st).to_string());
         let Some(edges) = table.by_state.get(&key) else {
-            rep.add_fail(
-                &Fail { props: "C05".into(), msg: format!("observed state {} is not a well-formed state of the model", key.1) },
-                &Value::Null,
-                0,
-                "walk",
-            );
+            // no transition of the enumerated family starts here (e.g. bulk construction only starts from
+            // an empty container): fine if the state is well-formed - the walk simply ends; otherwise C05
+            let cls: Vec<crate::elem::Cls> = cage.m.iter().map(|(k, _)| k.class()).collect();
+            let distinct = (0..cls.len()).all(|a| (a + 1..cls.len()).all(|b| cls[a] != cls[b]));
+            if !(distinct && cls.len() <= N && cage.m.len() == cls.len()) {
+                rep.add_fail(
+                    &Fail { props: "C05".into(), msg: format!("observed state {} is not a well-formed state of the model", key.1) },
+                    &Value::Null,
+                    0,
+                    "walk",
+                );
+            }
             break;
         };
         let idx = edges[rng.gen_range(0..edges.len())];
@@ -830,12 +836,18 @@ fn walk_set<const N: usize>(table: &Table, env: &Env, rng: &mut StdRng, steps: u
         let st: Vec<Value> = cage.m.iter().map(|k| json!([k.class(), k.ver, 0])).collect();
         let key = (N, Value::Array(st).to_string());
         let Some(edges) = table.by_state.get(&key) else {
-            rep.add_fail(
-                &Fail { props: "C05".into(), msg: format!("observed state {} is not a well-formed state of the model", key.1) },
-                &Value::Null,
-                0,
-                "walk",
-            );
+            // no transition of the enumerated family starts here (e.g. bulk construction only starts from
+            // an empty container): fine if the state is well-formed - the walk simply ends; otherwise C05
+            let cls: Vec<crate::elem::Cls> = cage.m.iter().map(|k| k.class()).collect();
+            let distinct = (0..cls.len()).all(|a| (a + 1..cls.len()).all(|b| cls[a] != cls[b]));
+            if !(distinct && cls.len() <= N && cage.m.len() == cls.len()) {
+                rep.add_fail(
+                    &Fail { props: "C05".into(), msg: format!("observed state {} is not a well-formed state of the model", key.1) },
+                    &Value::Null,
+                    0,
+                    "walk",
+                );
+            }
             break;
         };
         let idx = edges[rng.gen_range(0..edges.len())];
